@@ -17,7 +17,10 @@ EXPLANATION = (
     'tag discipline of the hashable form (constant non-str list tag; the '
     'encodings of [], {}, True, False pairwise distinct). R18.5: container '
     'equality compares lengths and tests key presence before comparing '
-    'values. The algebraic laws over run-time values (reflexive/symmetric/'
+    'values. R18.6: the dict branch of sanitize stores with overwrite '
+    'semantics in the order of the argument\'s items, so among keys that '
+    'stringify alike the last member wins as in json.loads(json.dumps(d)). '
+    'The algebraic laws over run-time values (reflexive/symmetric/'
     'transitive, 1 == 1.0, full injectivity) are NOT decided.')
 
 IMMUT = {'str', 'int', 'float', 'bool'}
@@ -538,6 +541,119 @@ def r18_5(ctx, rc):
                    'requires': 'key in value2'}, key=key)
 
 
+def r18_6(ctx, rc):
+    """Key collisions: json.loads(json.dumps(d)) keeps the LAST member among
+    keys that stringify alike, in the dict's own iteration order.  The dict
+    branch of sanitize must therefore store with overwrite semantics while
+    iterating the argument's items in order."""
+    prog = ctx.prog
+    S = _util(ctx, 'sanitize')
+    param = S.params[0]
+    parents = {}
+    for n in ast.walk(S.node):
+        for c in ast.iter_child_nodes(n):
+            parents[c] = n
+
+    def chain(n):
+        while n in parents:
+            n = parents[n]
+            yield n
+
+    def items_of_param(it, at):
+        cn = ctx.H.node_of(S, at)
+        e = ctx.H.subst(it, S, cn[0]) if cn else it
+        return (isinstance(e, ast.Call) and isinstance(e.func, ast.Attribute)
+                and e.func.attr == 'items' and not e.args and
+                isinstance(e.func.value, ast.Name) and
+                e.func.value.id == param)
+    n = 0
+    # (a) results built by a loop
+    dict_locals = set()
+    for a in ast.walk(S.node):
+        if isinstance(a, ast.Assign) and len(a.targets) == 1 and isinstance(
+                a.targets[0], ast.Name):
+            v = a.value
+            if (isinstance(v, ast.Dict) and not v.keys) or (
+                    isinstance(v, ast.Call) and isinstance(v.func, ast.Name)
+                    and v.func.id == 'dict' and not v.args and
+                    not v.keywords):
+                dict_locals.add(a.targets[0].id)
+    returned = {r.value.id for r in ast.walk(S.node)
+                if isinstance(r, ast.Return) and isinstance(r.value, ast.Name)}
+    for r in sorted(dict_locals & returned):
+        writes = []
+        for w in ast.walk(S.node):
+            if isinstance(w, ast.Assign) and any(
+                    isinstance(t, ast.Subscript) and isinstance(
+                        t.value, ast.Name) and t.value.id == r
+                    for t in w.targets):
+                writes.append(('store', w))
+            elif isinstance(w, ast.Call) and isinstance(
+                    w.func, ast.Attribute) and isinstance(
+                        w.func.value, ast.Name) and w.func.value.id == r \
+                    and w.func.attr not in ('items', 'keys', 'values', 'get',
+                                            'copy'):
+                writes.append((w.func.attr, w))
+        for how, w in writes:
+            n += 1
+            key = 'dict result %s of sanitize: %s' % (r, how)
+            loop = next((p for p in chain(w) if isinstance(
+                p, (ast.For, ast.While))), None)
+            guards_ = [p for p in chain(w) if isinstance(p, ast.If) and
+                       _mentions(p.test, r)]
+            problem = None
+            if how not in ('store', 'update'):
+                problem = ('entries are added with .%s(), which does not '
+                           'overwrite an entry already present' % how
+                           if how == 'setdefault' else
+                           'the result is modified with .%s()' % how)
+            elif guards_:
+                problem = ('the store is guarded by a test on the result '
+                           'itself (%s): an entry already present is not '
+                           'overwritten' % ast.unparse(guards_[0].test)[:50])
+            elif not isinstance(loop, ast.For) or not items_of_param(
+                    loop.iter, loop):
+                problem = ('the entries are not stored while iterating '
+                           '%s.items() in its own order' % param)
+            if problem:
+                rc.violation(
+                    'collision-order | sanitize | ' + how,
+                    'json.loads(json.dumps(d)) keeps the last member among '
+                    'keys that stringify alike (0 and "0", None and "null"); '
+                    + problem, prog.loc(S, w), key=key)
+            else:
+                rc.ok({'result': r, 'store': 'result[key] = ... in the '
+                       'order of %s.items()' % param}, key=key)
+    # (b) comprehension / dict(...) results
+    for rt in ast.walk(S.node):
+        if not isinstance(rt, ast.Return) or rt.value is None:
+            continue
+        v = rt.value
+        comp = None
+        if isinstance(v, ast.DictComp):
+            comp = v
+        elif isinstance(v, ast.Call) and isinstance(v.func, ast.Name) and \
+                v.func.id == 'dict' and len(v.args) == 1 and isinstance(
+                    v.args[0], (ast.GeneratorExp, ast.ListComp)):
+            comp = v.args[0]
+        if comp is None:
+            continue
+        n += 1
+        key = 'dict result of sanitize: comprehension'
+        g = comp.generators
+        if len(g) == 1 and not g[0].ifs and items_of_param(g[0].iter, rt):
+            rc.ok({'result': 'comprehension over %s.items()' % param},
+                  key=key)
+        else:
+            rc.violation(
+                'collision-order | sanitize | comprehension',
+                'the dict result is not built from every item of '
+                '%s.items() in order (last member wins among keys that '
+                'stringify alike)' % param, prog.loc(S, rt), key=key)
+    if n < 1:
+        raise AnalysisError('dict branch of sanitize not recognised')
+
+
 RULES = [
     ('R18.1', 'sanitize returns fresh structure', r18_1),
     ('R18.2', 'sanitize/_key_to_str are total and reject with TypeError',
@@ -545,4 +661,5 @@ RULES = [
     ('R18.3', 'bool is discriminated before the generic fall-through', r18_3),
     ('R18.4', 'tag discipline of the hashable form', r18_4),
     ('R18.5', 'container equality compares lengths and key presence', r18_5),
+    ('R18.6', 'colliding dict keys: last member wins, as in json', r18_6),
 ]
